@@ -722,7 +722,16 @@ pub fn check_c02(cx: &Ctx, rep: &mut Report) {
         let pred = |e: usize| verdicts[e].as_ref() == Some(&(class.clone(), *i));
         let min = g.minimise(&path, &pred);
         let sender_role = if &w.pool[*i].author == member { "own" } else { "other" };
-        let sig = format!("C02|{class}|{:?}|{}|msg.{sender_role}@depth{}|{}", g.regime, member_role(w, member), w.pool[*i].node.len(), abstract_trace(cx, &min));
+        // why: the message's dedup record and what offering it again returns in the settled state, and whether
+        // its wrapper still carries the Nostr group id the member's record has now (an id rotation in between)
+        let why = settle(cx, g.run(&min).unwrap_or(s)).map(|q| {
+            let st = &g.states[q];
+            let redelivery = g.follow(q, Action::Deliver(*i)).map(|e| e.result.clone()).unwrap_or_else(|| "disabled".into());
+            let tag = w.pool[*i].event.tags.iter().find(|t| t.as_slice().first().map(|x| x == "h").unwrap_or(false)).and_then(|t| t.as_slice().get(1).cloned()).unwrap_or_default();
+            let cur = st.g.as_ref().and_then(|go| go.record["nostr_group_id"].as_str().map(|x| x.to_string())).unwrap_or_default();
+            format!("dedup={}:redelivery={}:h-tag={}", if st.dedup[*i].is_empty() { "none" } else { &st.dedup[*i] }, redelivery, if tag == cur { "current-id" } else { "id-rotated-since" })
+        }).unwrap_or_else(|| "unsettled".into());
+        let sig = format!("C02|{class}|{:?}|{}|msg.{sender_role}@depth{}|{why}|{}", g.regime, member_role(w, member), w.pool[*i].node.len(), abstract_trace(cx, &min));
         rep.finding(sig, format!("member {member}: message {} ends {class} after [{}] and re-offering everything", w.pool[*i].label, trace_labels(cx, &min).join(" ; ")), detail(cx, &min, json!({"message": w.pool[*i].label, "class": class})));
     }
     for s in 0..g.states.len() {
